@@ -142,6 +142,8 @@ pub struct St {
     pub items_off: usize,
     pub fill: Fill,
     pub salt: u64,
+    /// separate stream for the poisoner so that interpreter choices do not depend on the filling
+    pub salt_poison: u64,
     pub dead_ids: Vec<u32>,
     pub flags: u64,
     pub dig: u64,
@@ -199,9 +201,12 @@ impl St {
     /// this op) is armed exactly for the duration of the call, so user-code events of the
     /// harness itself are never counted or faulted.
     pub(crate) fn call<T>(&mut self, f: impl FnOnce(&mut dyn Deq<Tracked>) -> T) -> Called<T> {
-        match self.pending_fault.take() {
-            Some((k, n)) => ledger::arm(k, n),
-            None => ledger::start_count(),
+        // the fault index counts user-code events over all crate calls of the current op
+        match self.pending_fault {
+            Some((k, n)) if !self.fired && n > self.op_counts[k as usize] => {
+                ledger::arm(k, n - self.op_counts[k as usize])
+            }
+            _ => ledger::start_count(),
         }
         let buf = &mut **self.buf.as_mut().expect("buffer present");
         let r = catch_unwind(AssertUnwindSafe(move || f(buf)));
@@ -224,9 +229,12 @@ impl St {
 
     /// Same, for calls that do not go through `self.buf` (constructors, consuming calls).
     pub(crate) fn call_free<T>(&mut self, f: impl FnOnce() -> T) -> Called<T> {
-        match self.pending_fault.take() {
-            Some((k, n)) => ledger::arm(k, n),
-            None => ledger::start_count(),
+        // the fault index counts user-code events over all crate calls of the current op
+        match self.pending_fault {
+            Some((k, n)) if !self.fired && n > self.op_counts[k as usize] => {
+                ledger::arm(k, n - self.op_counts[k as usize])
+            }
+            _ => ledger::start_count(),
         }
         let r = catch_unwind(AssertUnwindSafe(f));
         let c = ledger::counts();
@@ -424,7 +432,8 @@ impl St {
         for s in &slots {
             occ[*s] = true;
         }
-        let salt = self.rnd() as usize;
+        self.salt_poison = self.salt_poison.wrapping_mul(6364136223846793005).wrapping_add(1442695040888963407);
+        let salt = (self.salt_poison >> 33) as usize;
         let mut pats: Vec<(usize, [u8; ELEM])> = Vec::new();
         for s in 0..n {
             if occ[s] {
@@ -567,7 +576,10 @@ impl St {
 }
 
 pub fn run_case(case: &Case, opts: Opts) -> Result<Outcome, Failure> {
-    crate::interp_ops::run_case_impl(case, opts)
+    crate::runner::set_current(Some(case));
+    let r = crate::interp_ops::run_case_impl(case, opts);
+    crate::runner::set_current(None);
+    r
 }
 
 pub(crate) fn new_state(case: &Case, opts: Opts) -> St {
@@ -582,6 +594,7 @@ pub(crate) fn new_state(case: &Case, opts: Opts) -> St {
         items_off: items_offset(n),
         fill: case.fill,
         salt: 0x9E37_79B9_7F4A_7C15 ^ ((case.salt as u64) << 17) ^ case.n as u64,
+        salt_poison: case.salt as u64 ^ 0xABCD,
         dead_ids: Vec::new(),
         flags: 0,
         dig: 0xcbf29ce484222325,
